@@ -3,6 +3,7 @@
 mod auth_lens;
 mod cat_lens;
 mod grp_lens;
+mod jrn_lens;
 mod log_lens;
 mod perm_lens;
 mod srv;
@@ -82,6 +83,10 @@ fn main() {
         "perm" => {
             let l = perm_lens::PermLens::new(&work);
             each_scenario::<perm_lens::Scenario>(&input, &mut tool_errors, |n, s| l.run_scenario(n, s, &mut out))
+        }
+        "jrn" => {
+            let l = jrn_lens::JrnLens::new(&work);
+            each_scenario::<jrn_lens::Scenario>(&input, &mut tool_errors, |n, s| l.run_scenario(n, s, &mut out))
         }
         "grp" => {
             let l = grp_lens::GrpLens::new(&work);
